@@ -79,6 +79,49 @@ Definition SHEET1_U : text := [83; 72; 69; 69; 84; 49].
 Definition init : workbook :=
   mkWb [mkSheet SHEET1 SHEET1_U 1 [] [] [] 0] 0 (mkPools 1 2 1 [] [mkXfr 0 0 0 0]) [].
 
+(* ---- the column-descriptor part of delete_columns / insert_columns (actions.rs) -------------------- *)
+Definition with_range (c : Cols.col) (lo hi : Z) : Cols.col :=
+  Cols.mkCol lo hi (Cols.c_width c) (Cols.c_custom c) (Cols.c_hidden c) (Cols.c_style c).
+
+(* one iteration of the loop "deletes all the column styles" of delete_columns, as it is after
+   commit 5240496: cases A-F of the comment; D and E push only when min <= max *)
+Definition del_descr (start count : Z) (c : Cols.col) : option Cols.col :=
+  let e := start + count - 1 in
+  let mn := Cols.c_min c in let mx := Cols.c_max c in
+  if start <? mn then
+    if e <? mn then Some (with_range c (mn - count) (mx - count))            (* A *)
+    else if e <? mx then Some (with_range c start (mx - count))               (* B *)
+    else None                                                                 (* C *)
+  else if start <=? mx then
+    if e <=? mx then (if mn <=? mx - count then Some (with_range c mn (mx - count)) else None)   (* D *)
+    else (if mn <=? start - 1 then Some (with_range c mn (start - 1)) else None)                 (* E *)
+  else Some c.                                                                (* F *)
+
+Fixpoint del_descrs (start count : Z) (cs : Cols.cols) : Cols.cols :=
+  match cs with
+  | [] => []
+  | c :: r => match del_descr start count c with
+              | Some c' => c' :: del_descrs start count r
+              | None => del_descrs start count r
+              end
+  end.
+
+(* the validation delete_columns performs before (count > 0, first column on the grid, band inside
+   the grid); the array check and the moving of cells are outside this model *)
+Definition delete_columns_descrs (start count : Z) (cs : Cols.cols) : outcome Cols.cols :=
+  if count <=? 0 then Err
+  else if negb ((1 <=? start) && (start <=? LAST_COLUMN)) then Err
+  else if LAST_COLUMN <? start + count - 1 then Err
+  else Ok (del_descrs start count cs).
+
+(* the loop at the end of insert_columns: left of the column: untouched; right: displaced; across: widened *)
+Definition ins_descr (column count : Z) (c : Cols.col) : Cols.col :=
+  if Cols.c_max c <? column then c
+  else if column <=? Cols.c_min c then with_range c (Cols.c_min c + count) (Cols.c_max c + count)
+  else with_range c (Cols.c_min c) (Cols.c_max c + count).
+Definition insert_columns_descrs (column count : Z) (cs : Cols.cols) : outcome Cols.cols :=
+  if count <=? 0 then Err else Ok (map (ins_descr column count) cs).
+
 (* ---- operations ---------------------------------------------------------------------------------------- *)
 Fixpoint upd_nth {A} (n : nat) (f : A -> A) (l : list A) : list A :=
   match l, n with
